@@ -67,21 +67,23 @@ def main(run, args):
                         if o != m:
                             g.ops.append({"op": "deliver", "to": o, "msg": pid})
                 elif rng.chance(1, 4):
+                    nt = rng.chance(1, 2)      # state written without the ratchet tree, tree kept aside
                     g.ops.append({"op": "commit", "who": m, "id": g.fresh("pc")})
-                    g.ops.append({"op": "save", "who": m})
+                    g.ops.append({"op": "save", "who": m, "no_tree": nt})
                     g.ops.append({"op": "observe", "who": m, "observe": m})
                     a = len(g.ops) - 1
-                    g.ops.append({"op": "load", "who": m})
+                    g.ops.append({"op": "load", "who": m, "no_tree": nt})
                     g.ops.append({"op": "observe", "who": m, "observe": m})
-                    mk.append(("reload_pending_commit", m, a, len(g.ops) - 1))
+                    mk.append(("reload_pending_commit" + ("_treeless" if nt else ""), m, a, len(g.ops) - 1))
                     g.ops.append({"op": "clear", "who": m})
                     continue
-                g.ops.append({"op": "save", "who": m})
+                nt = rng.chance(1, 3)
+                g.ops.append({"op": "save", "who": m, "no_tree": nt})
                 g.ops.append({"op": "observe", "who": m, "observe": m})
                 a = len(g.ops) - 1
-                g.ops.append({"op": "load", "who": m})
+                g.ops.append({"op": "load", "who": m, "no_tree": nt})
                 g.ops.append({"op": "observe", "who": m, "observe": m})
-                mk.append(("reload", m, a, len(g.ops) - 1))
+                mk.append(("reload" + ("_treeless" if nt else ""), m, a, len(g.ops) - 1))
         # crash: save, then more (unsaved) operations, then reload -> the saved state
         if g.in_group:
             m = rng.choice(g.in_group)
@@ -150,7 +152,7 @@ def main(run, args):
             if not obs_equal(oa, ob):
                 diff = {k: (oa.get(k), ob.get(k)) for k in oa if oa.get(k) != ob.get(k)}
                 failing.append({"what": f"{kind}: the loaded group differs from the saved one", "script": sc["name"], "member": m, "differences": diff, "ops": sc["ops"][a - 3:b + 1]})
-            if oa.get("stored_state") != oa.get("snap") and oa.get("stored_bag") != oa.get("snap_bag"):
+            if not kind.endswith("_treeless") and oa.get("stored_state") != oa.get("snap") and oa.get("stored_bag") != oa.get("snap_bag"):
                 failing.append({"what": "the stored state is not the member's snapshot at the time of the write", "script": sc["name"], "member": m})
         # lockstep: members of the same epoch agree (includes the reloaded ones)
         for r in rs:
